@@ -333,6 +333,12 @@ static void run_c10(void)
                 }
             }
             for (i = 0; i < sizeof(FAR) / sizeof(FAR[0]); ++i) { lcg_fill(key, sizeof(key), 7); c10_case(ep, be, FAR[i], key, 0); }
+            {   /* lengths at which length arithmetic could wrap: 2^k + a legal length (scaled comparisons), 2^32 - v (sums) */
+                unsigned k, v;
+                lcg_fill(key, sizeof(key), 7);
+                for (k = 24; k <= 31; ++k) for (v = 0; v <= 3; ++v) c10_case(ep, be, (1u << k) + v * (unsigned)bs, key, 0);
+                for (v = 1; v <= 48; ++v) c10_case(ep, be, 0u - v, key, 0);
+            }
             if (job < 5) sample_add("%s on %s: key lengths 0..64 and {65,255,256,65536,2^31,UINT_MAX}; accepted lengths compared with the zero-padded key (schedule image, ciphertexts, specification)", EPNAME[ep], be_name(be));
         }
     }
